@@ -42,6 +42,9 @@ type c09H struct {
 	e       *ibcEnv
 	clients []c09Client
 	chans   []c09Chan
+	// x/group fixture of the stored-proposal route (c09_group.go)
+	groupPolicy string
+	nProposals  uint64
 }
 
 type c09Chan struct {
@@ -352,9 +355,16 @@ func (h *c09H) exec(line string) (res string, ibc string) {
 			chain = h.core.rollapps[h.clients[ci].chain]
 		}
 		hd := h.hdrFromLine(chain, m, atou(m["root"]))
-		inner, err := clienttypes.NewMsgUpdateClient(cid, hd, h.e.relayer.String())
+		signer := h.e.relayer.String()
+		if m["w"] == "group" {
+			signer = h.ensureGroup()
+		}
+		inner, err := clienttypes.NewMsgUpdateClient(cid, hd, signer)
 		if err != nil {
 			h.t.Fatal(err)
+		}
+		if m["w"] == "group" {
+			return h.runGroup(inner)
 		}
 		return h.runWrapped(m["w"], inner)
 	case "lc_misb":
@@ -369,13 +379,20 @@ func (h *c09H) exec(line string) (res string, ibc string) {
 		var inner sdk.Msg
 		var err error
 		k := m["k"]
+		signer := h.e.relayer.String()
+		if strings.HasSuffix(k, "Group") {
+			signer = h.ensureGroup()
+		}
 		if strings.HasPrefix(k, "submit") {
-			inner, err = clienttypes.NewMsgSubmitMisbehaviour(cid, mb, h.e.relayer.String()) //nolint:staticcheck
+			inner, err = clienttypes.NewMsgSubmitMisbehaviour(cid, mb, signer) //nolint:staticcheck
 		} else {
-			inner, err = clienttypes.NewMsgUpdateClient(cid, mb, h.e.relayer.String())
+			inner, err = clienttypes.NewMsgUpdateClient(cid, mb, signer)
 		}
 		if err != nil {
 			h.t.Fatal(err)
+		}
+		if strings.HasSuffix(k, "Group") {
+			return h.runGroup(inner)
 		}
 		w := map[string]string{"submit": "top", "submitNested": "nested", "viaUpdate": "top", "viaUpdateNested": "nested", "viaWrapped": "wrapped", "viaWrappedNested": "nestedwrapped"}[k]
 		return h.runWrapped(w, inner)
@@ -932,7 +949,7 @@ func (m *c09Mon) perMsg(f []string, kv map[string]string, res, op string, prev, 
 				m.r.Hit("signer/accepted-header-naming-a-proposer-of-another-rollapp")
 			}
 		}
-		if kv["w"] == "nested" && !strings.HasPrefix(res, "ante:") {
+		if (kv["w"] == "nested" || kv["w"] == "group") && !strings.HasPrefix(res, "ante:") {
 			m.violate("C09/nested_update_rejected/nested-update-not-refused-by-ante", op+" => "+res)
 		}
 	case "lc_misb":
@@ -1341,6 +1358,8 @@ func (c *c09Gen) headerLine(ci int, cs *coreSnap, ls *c09Snap) string {
 		w = "nested"
 	case 3:
 		w = "nestedwrapped"
+	case 4:
+		w = "group"
 	}
 	c.r.Hit("header/route-" + w)
 	return fmt.Sprintf("lc_update c%d w=%s h=%d root=%d ts=%d nv=%d ps=%s pd=%s rev=%d trusted=%d vals=%s tvals=%s",
@@ -1477,7 +1496,7 @@ func (c *c09Gen) misbLine(ci int, ls *c09Snap) string {
 		signer = 0
 	}
 	ht := tr.H + 1 + uint64(g.Intn(3))
-	ks := []string{"submit", "submit", "submitNested", "submitNested", "viaUpdate", "viaUpdate", "viaUpdateNested", "viaWrapped", "viaWrappedNested"}
+	ks := []string{"submit", "submit", "submitNested", "submitNested", "viaUpdate", "viaUpdate", "viaUpdateNested", "viaWrapped", "viaWrappedNested", "submitGroup", "viaUpdateGroup"}
 	k := ks[g.Intn(len(ks))]
 	c.r.Hit("misbehaviour/" + k)
 	vals := []hdrVal{{signer, 1, true}}
@@ -1822,6 +1841,13 @@ func c09Directed() [][]string {
 		// mirrored order: the header first — the hook of the state update then finds the consensus state and refuses, the transaction is atomic
 		cat(ra0, []string{up(1, 3), honest, "lc_setcanon c0",
 			"tx lc_update c0 w=top h=5 root=99 ts=50 nv=1 ps=a0 pd=a0 rev=0 trusted=2 vals=a0:1:1 tvals=a0:1:1 ;; " + up(4, 2), up(4, 2)}),
+		// a header contradicting the posted descriptor of height 3, and evidence, inside an x/group proposal that is only stored at
+		// submission (Exec unspecified) and would run on a later vote with Exec = TRY: the submitting transaction is refused
+		cat(ra0, []string{up(1, 3), honest, "lc_setcanon c0",
+			"lc_update c0 w=group h=3 root=99 ts=30 nv=1 ps=a0 pd=a0 rev=0 trusted=2 vals=a0:1:1 tvals=a0:1:1",
+			"lc_misb c0 k=submitGroup h=4 root=5 ts=40 nv=1 ps=a0 pd=a0 rev=0 trusted=2 vals=a0:1:1 tvals=a0:1:1",
+			"lc_misb c0 k=viaUpdateGroup h=4 root=5 ts=40 nv=1 ps=a0 pd=a0 rev=0 trusted=2 vals=a0:1:1 tvals=a0:1:1",
+			"lc_update c0 w=group h=5 root=6 ts=50 nv=1 ps=a0 pd=a0 rev=0 trusted=2 vals=a0:1:1 tvals=a0:1:1"}),
 		// the first channel over the canonical client is opened by an ack inside authz.MsgExec / by MsgChannelOpenConfirm: it does not
 		// become canonical, the next channel acknowledged at top level does
 		cat(ra0, []string{up(1, 3), honest, "lc_setcanon c0", "lc_chaninit c0", "lc_chaninit c0", "lc_chanack ch0 w=nested ibc=1", "lc_chanack ch1 w=top ibc=1"}),
